@@ -32,6 +32,19 @@ CHECKS = {
         note="Trusted: Coq kernel + vm_compute; Python harness; value-semantics model (aliasing decided by the run); adaptation "
              "frozen during recorded transitions.",
         design="DESIGN.md section 5, C03"),
+    "C09": dict(
+        category="proof",
+        text="Three ties re-established on every run: (1) an AST translator regenerates from the current source the field lists "
+             "of save()/load()/constructors/methods a reloaded sampler must support and Coq re-proves load_complete, save_ready "
+             "and keys_available over them; (2) scripted runs of the four real sampler classes are cut at crash points (before "
+             "any step, early, around the first width / step-size / direction update, later), saved, reloaded and every "
+             "transition of the RELOADED object is replayed through Model/Samplers.v inside Coq (the model never saved); (3) a "
+             "never-saved twin with the same generator state must agree exactly in all read-outs and in its continuation. "
+             "Theorems: decode . encode = id on the key/value store, a missing key is an error, continuation corollary, "
+             "injectivity of rendered parameter keys (swept for indices < 40).",
+        note="Trusted: Coq kernel + vm_compute; numpy.savez/load round-trip arrays; the AST translator (fail-closed); plotting "
+             "calls of a reloaded sampler are not exercised in the quick tier.",
+        design="DESIGN.md section 5, C09"),
     "C13": dict(
         category="proof",
         text="All clauses of C13 (end points are sample values, coverage > fraction, optimality against every closed interval, "
